@@ -754,3 +754,19 @@ func DirectedCyclicShape(r *rand.Rand, shape int) *Prog {
 	p.Cfg.MaxCall = 1000
 	return p
 }
+
+// canSwallowErrors: some construct of the program can keep an error from reaching Run's result
+// (a deferred task call, ignore_error on a task or on a command).
+func (p *Prog) canSwallowErrors() bool {
+	for _, t := range p.Tasks {
+		if t.Ignore {
+			return true
+		}
+		for _, c := range t.Cmds {
+			if c.Kind == "dcall" || c.Ign {
+				return true
+			}
+		}
+	}
+	return false
+}
